@@ -23,7 +23,9 @@ SHARD = 1200
 RULE = ("ladder: every (platform in FreeBSD/OpenBSD/NetBSD/macOS/SunOS/AIX/Windows) x (public method of the platform Process "
         "class) x (native call the method makes, discovered by a fault-free run for pid 7 and pid 0) x (ESRCH, ENOENT, EPERM, "
         "EACCES, EIO, EINVAL; on Windows also winerror 5, 1314, 299, 87) x (alive, zombie, gone = not listed) x pid in {7, 0}, plus ESRCH for a PID "
-        "listed with EVERY native status code of the platform's PROC_STATUSES; layout: every "
+        "listed with EVERY native status code of the platform's PROC_STATUSES; list-then-read loops (Solaris threads / open_files / memory_maps): "
+        "listing of 2..4 items x every per-item outcome list (one failing item j with every errno; every list over read / vanished / EIO) x "
+        "answer of the trailing liveness probe os.stat x process state; layout: every "
         "documented (platform, method, route) on random native records of distinct values; front end: random IPv4 address/mask "
         "(prefix masks, host masks, non-contiguous, missing), IPv6, MACs of 1..6 octets, per platform; exposed names per "
         "platform. Non-trivial = the fault fires / the record is non-empty; distinct = distinct canonical case hash.")
@@ -32,13 +34,14 @@ TRUSTED = ["stub native layer and loaders props/_c20_stub.py (the C layers of th
            "documented contract transcribed by hand in coq/C20/Spec.v (docs/index.rst, property text, Py_BuildValue order of the C sources)",
            "CPython: errno -> OSError subclass mapping (PEP 3151), ipaddress module"]
 ASSUMPTIONS = ["only the Python layers of the platforms are exercised; native C code is stubbed",
-               "one failing native call per run (all its invocations fail), plus the documented two-call pairs and PARTIAL_COPY retry counts; "
+               "one failing native call per run (all its invocations fail), plus the documented two-call pairs and PARTIAL_COPY retry counts, plus "
+               "(list-then-read loops) faults addressed by access point and ordinal of the call there combined with a fault of the trailing os.stat; "
                "ladder probes (is_zombie, pid_exists, pids) run for real over the world model and are answered truthfully",
                "wait() is driven with timeout 0 only; AIX open_files() (subprocess) is not driven; the system-wide functions are not called "
                "(their named-tuple classes are read)"]
 EXHAUSTIVE = {"quick": "by theorem over the tables regenerated from the code on every run: the whole ladder, status-code, all-sites, double-fault and "
                        "two-call spaces. Case by case (concrete replays): every method x failing call x one errno per exception class x state "
-                       "(pid 0 on the PID-0-rule platforms), retry counts 1/2/32/33/34, wait scenarios, all documented layouts, 7 x 5 system tuples",
+                       "(pid 0 on the PID-0-rule platforms), the whole list-then-read loop block (1 245 cases, never sampled), retry counts 1/2/32/33/34, wait scenarios, all documented layouts, 7 x 5 system tuples",
               "thorough": "as quick with all state/pid combinations of the pairs; 40 random records per documented layout; 300 front-end rows per platform"}
 
 PLATS = ["freebsd", "openbsd", "netbsd", "macos", "sunos", "aix", "windows"]
@@ -725,7 +728,10 @@ MANIFEST = {
             "k times for every k, for wait(0) (TimeoutExpired with pid and name while the PID is listed), for every native call of the method failing "
             "at once, and for double faults in the translation path (the call fails with e1, the follow-up probes is_zombie / pid_exists / pids "
             "with an independent e2: the outcome lies in the acceptable set, never a bare OSError for a no-such-process or permission failure); and "
-            "for every history through the front end the exception of a failing call carries the name that name() last returned. Excluded and refuted: a PID 0 the OS "
+            "for the list-then-read loops of the Solaris layer (threads, open_files, memory_maps) for EVERY list of per-item outcomes, by induction: a "
+            "vanished item (ENOENT) is skipped, and if one vanished and the trailing liveness probe os.stat fails the call ends with the translation "
+            "of that failure (NoSuchProcess / ZombieProcess with pid and name), never with the half-read list; with the process alive the read items "
+            "in listing order; and for every history through the front end the exception of a failing call carries the name that name() last returned. Excluded and refuted: a PID 0 the OS "
             "does not list is taken to exist (Solaris, NetBSD cmdline). Legacy variants of the model (before fixes a2d103c, d6fc959, 0a57bb9) are "
             "refuted. Tables "
             "regenerated from the code on every run (finite forallb facts lifted with forallb_forall): every probed outcome of every (platform, "
